@@ -21,11 +21,15 @@ def warm_stimulus(stim_mv, m):
     """the batch a USED simulator has simulated before: the complement-ish of the real stimulus (every 0/1 flipped, so that every
     signal that is 0 in the real round was very likely 1 before), unknowns kept"""
     w = stim_mv.copy()
-    w[stim_mv == 0] = 3
-    w[stim_mv == 3] = 0
     if m == 8:
-        w[stim_mv == 5] = 6
-        w[stim_mv == 6] = 5
+        # static values of the real round were TRANSITIONS before (and vice versa): activity left behind anywhere would show
+        w[stim_mv == 0] = 5
+        w[stim_mv == 3] = 6
+        w[stim_mv == 5] = 0
+        w[stim_mv == 6] = 3
+    else:
+        w[stim_mv == 0] = 3
+        w[stim_mv == 3] = 0
     return w
 
 
